@@ -329,7 +329,7 @@ OPERATORS = ["rename-field", "leaf-subselection", "composite-no-selection", "unk
              "inline-on-enum", "inline-on-input", "inline-on-scalar", "retarget-inline", "fragment-on-enum", "fragment-on-input",
              "unreached-self-cycle", "unreached-mutual-cycle", "fault-behind-unreached-cycle",
              "subscription-second-alias", "subscription-second-alias-inline", "subscription-second-alias-spread",
-             "nullable-var-in-defaulted-list"]
+             "nullable-var-in-defaulted-list", "dup-operation-other-kind"]
 
 
 def inject(doc, operator, site, disjoint_type="Lone", names=None):
@@ -488,6 +488,13 @@ def inject(doc, operator, site, disjoint_type="Lone", names=None):
         x = nth([o for o in ops if o["hasName"]])
         if not x: return None
         d["defs"].append(copy.deepcopy(x))
+    elif operator == "dup-operation-other-kind":
+        # operation names are unique across ALL operations of a document, whatever their kind
+        x = nth([o for o in ops if o["hasName"]])
+        roots = (names or {}).get("rootKinds") or ["query"]
+        other = [k for k in roots if not x or k != x["opType"]]
+        if not x or not other: return None
+        d["defs"].append(G.op(x["name"], [G.field("__typename")], other[site % len(other)]))
     elif operator == "extra-anonymous":
         if not ops or site > 0: return None
         d["defs"].append(G.op(None, [G.field("__typename")]))
